@@ -380,6 +380,11 @@ def run_case(c, d):
                     c.discard('op:onesided-for-complex-data-is-forbidden')
                     continue
                 live.sides = target
+                # an attribute assignment reads back as assigned (also on an object that has not computed yet: the
+                # requested layout must not be dropped by the first computation)
+                c.require('op:sides-reads-back-as-assigned', live.sides == target,
+                          {'assigned': target, 'read_back': live.sides, 'history': history[-8:], 'fresh': bool(d.get('fresh'))},
+                          dict(feats0, op='sides', datatype='complex' if _is_cplx(st['data']) else 'real'))
                 sides_log.append(target)
                 changed.append('sides')
             elif kind == 'call':
